@@ -1,2 +1,3 @@
+@property
 def spec(self):
     return unique(chain.from_iterable((m.values() for m in self.monitors_.values())))
